@@ -217,17 +217,23 @@ class Ctx:
         if self._scopes:
             # a fact established while a Sigma bound variable is in scope holds under the
             # range hypothesis of that variable only
-            f = z3.Implies(z3.And(*[c for c, _ in self._scopes]), f)
+            # ... and a fact that does not mention the variable holds as soon as that range is
+            # non-empty (exists v. lo <= v < hi  <=>  lo < hi), e.g. the defining facts of an argmax
+            # skolem first needed inside a summand
+            conds = []
+            for c, vid, ne in self._scopes:
+                conds.append(ne if (ne is not None and not _contains(f, {vid}, {})) else c)
+            f = z3.Implies(z3.And(*conds), f)
             self._scope_facts.append(f)
             self._solver.add(f)
             return
         self.pc.append(f)
         self._solver.add(f)
 
-    def enter_scope(self, var, cond):
+    def enter_scope(self, var, cond, nonempty=None):
         self._solver.push()
         self._solver.add(cond)
-        self._scopes.append((cond, var.get_id()))
+        self._scopes.append((cond, var.get_id(), nonempty))
 
     def exit_scope(self):
         self._scopes.pop()
@@ -250,7 +256,7 @@ class Ctx:
             return True
         if z3.is_false(cond):
             return False
-        if self._scopes and _contains(cond, {vid for _, vid in self._scopes}, {}):
+        if self._scopes and _contains(cond, {vid for _, vid, _ in self._scopes}, {}):
             raise Outside("branch on a Sigma bound variable")
         k = len(self.trace)
         if k < len(self.prefix):
@@ -1121,7 +1127,7 @@ def sym_sum(lo, hi, body_fn, skipna=False):
     v = z3.Int(fresh_name("k"))
     lo_t = as_sym(lo).t
     hi_t = as_sym(hi).t
-    CTX.enter_scope(v, z3.And(v >= lo_t, v < hi_t))
+    CTX.enter_scope(v, z3.And(v >= lo_t, v < hi_t), nonempty=(lo_t < hi_t))
     try:
         b = as_sym(body_fn(Sym(v)))
     finally:
